@@ -605,16 +605,33 @@ def check_intrnn(ctx, batch, cases):
 # ------------------------------------------------------------------------------------------------
 
 
+MASK_STYLES = ('pad', 'random', 'leq', 'none')
+
+
+def _user_step_masks(rng, style, B, T):
+  """per-step user masks [T][B][max_length=T] for decoding: 'pad' = the same key-padding mask at every step (a
+  right-padded batch: it allows not-yet-written cache slots), 'random' = arbitrary rows, 'leq' = rows that already
+  encode j <= t; position t itself (resp. position 0 for 'pad') stays allowed so every query sees something."""
+  if style == 'none':
+    return None
+  if style == 'pad':
+    lens = [rng.randrange(1, T + 1) for _ in range(B)]
+    if T >= 3:
+      lens[0] = rng.randrange(3, T + 1)  # at least one row whose mask exposes unwritten slots at the first steps
+    return [[[1 if j < lens[b] else 0 for j in range(T)] for b in range(B)] for t in range(T)]
+  if style == 'leq':
+    return [[[1 if (j == t or (j < t and rng.random() < 0.8)) else 0 for j in range(T)] for _ in range(B)] for t in range(T)]
+  return [[[1 if (j == t or rng.random() < 0.7) else 0 for j in range(T)] for _ in range(B)] for t in range(T)]
+
+
 def gen_decode_trace_cases(rng, thorough):
   cases = []
   pal = shared_pal(rng, thorough, 'attn')
   for _ in range(4 if not thorough else 250):
     B, T, F, H, D = rng.choice(pal)
     L = T
-    user = None
-    if rng.random() < 0.6:
-      # per-step user mask rows [T][B][L]; the diagonal stays allowed so every query sees something
-      user = [[[1 if (j == t or rng.random() < 0.7) else 0 for j in range(L)] for _ in range(B)] for t in range(T)]
+    i = len(cases)
+    user = _user_step_masks(rng, MASK_STYLES[(i // 2) % len(MASK_STYLES)], B, T)
     bias = None
     if rng.random() < 0.5:
       bias = [[[[rng.randrange(-2, 3) for _ in range(L)] for _ in range(H)] for _ in range(B)] for t in range(T)]
@@ -672,13 +689,17 @@ def _linen_mha(H, D, params, **kw):
   return nn.MultiHeadDotProductAttention(num_heads=H, qkv_features=H * D, normalize_qk='query_ln' in params, **kw)
 
 
-def _mha_decode(api, F, H, D, params, xx, step_kw, jitted=None):
-  """feeds xx [B,T,F] one position at a time through the layer with decode=True (max_length = T)"""
+def _mha_decode(api, F, H, D, params, xx, step_kw, jitted=None, junk_seed=None):
+  """feeds xx [B,T,F] one position at a time through the layer with decode=True (max_length = T); with `junk_seed`
+  the freshly initialised cached_key / cached_value arrays are overwritten with finite junk first (cache_index stays 0)"""
   T = xx.shape[1]
   outs = []
+  junk = lambda a, k: jnp.asarray(np.random.default_rng(junk_seed + k).normal(0, 3, np.shape(a)).astype(np.float32))
   if api == 'linen':
     dec = _linen_mha(H, D, params, decode=True)
     cache = dec.init(jax.random.key(0), jnp.asarray(xx))['cache']
+    if junk_seed is not None:
+      cache = {'cached_key': junk(cache['cached_key'], 0), 'cached_value': junk(cache['cached_value'], 1), 'cache_index': cache['cache_index']}
     jitted = {} if jitted is None else jitted
     if 'step' not in jitted:  # one trace for all steps (and for the paired run)
       jitted['step'] = jax.jit(lambda c, xt, kw: dec.apply({'params': params, 'cache': c}, xt, mutable=['cache'], **kw))
@@ -689,6 +710,9 @@ def _mha_decode(api, F, H, D, params, xx, step_kw, jitted=None):
   else:
     dec = _nnx_mha(F, H, D, params, decode=True)
     dec.init_cache(xx.shape)
+    if junk_seed is not None:
+      dec.cached_key.value = junk(dec.cached_key.value, 0)
+      dec.cached_value.value = junk(dec.cached_value.value, 1)
     for t in range(T):
       outs.append(np.asarray(dec(jnp.asarray(xx[:, t : t + 1]), **step_kw(t))))
   return np.concatenate(outs, axis=1)
@@ -1481,12 +1505,12 @@ def check_attn(ctx, batch, cases):
 def gen_decodef_cases(rng, thorough):
   cases = []
   pal = shared_pal(rng, thorough, 'attn')
-  for i in range(4 if not thorough else 250):
+  for i in range(6 if not thorough else 250):
     B, T, F, H, D = rng.choice(pal)
     cases.append({
       'kind': 'decode-float', 'api': APIS[i % 2], 'B': B, 'T': T, 'F': F, 'H': H, 'D': D, 'pseed': rng.randrange(10**6),
       'x': [[[round(rng.uniform(-1.5, 1.5), 3) for _ in range(F)] for _ in range(T)] for _ in range(B)],
-      'user': None if rng.random() < 0.5 else [[[1 if (j == t or rng.random() < 0.7) else 0 for j in range(T)] for _ in range(B)] for t in range(T)],
+      'user': _user_step_masks(rng, MASK_STYLES[(i // 2) % len(MASK_STYLES)], B, T),
       'use_bias': rng.random() < 0.5, 'p': rng.randrange(1, T), 'qk_norm': D >= 2 and (i // 2) % 2 == 0,
     })
   return cases
@@ -1516,7 +1540,7 @@ def check_decodef(ctx, batch, cases):
     x2 = x.copy()
     x2[:, p:] = rs.choice(PERT, x2[:, p:].shape)
     ctx.case(case, nontrivial=T >= 2)
-    ctx.count('decode_float', f"{api}{'-mask' if user is not None else ''}{'-bias' if bias is not None else ''}{'-qknorm' if qk else ''}")
+    ctx.count('decode_float', f"{api}{'-mask' if user is not None else ''}{'-exposes-unwritten' if user is not None and any(user[t][b][j] for t in range(T) for b in range(B) for j in range(t + 1, T)) else ''}{'-bias' if bias is not None else ''}{'-qknorm' if qk else ''}")
 
     def step_kw(t):
       kw = {}
@@ -1528,8 +1552,8 @@ def check_decodef(ctx, batch, cases):
 
     jitted = {}
 
-    def decode(xx):
-      return _mha_decode(api, F, H, D, params, xx, step_kw, jitted)
+    def decode(xx, junk_seed=None):
+      return _mha_decode(api, F, H, D, params, xx, step_kw, jitted, junk_seed=junk_seed)
 
     def whole(xx):
       causal4 = am.make_causal_mask(jnp.ones((B, T)))
@@ -1539,15 +1563,21 @@ def check_decodef(ctx, batch, cases):
         kw['attention_bias'] = jnp.asarray(np.transpose(bias, (1, 2, 0, 3)))
       return np.asarray(_mha_run(api, F, H, D, params, (jnp.asarray(xx),), **kw))
 
-    rd, rw, rd2 = call(decode, x), call(whole, x), call(decode, x2)
-    if rd[0] != 'ok' or rw[0] != 'ok' or rd2[0] != 'ok':
-      ctx.violation('decode-raises', f'{api} attention decode/whole raised {[r[1] for r in (rd, rw, rd2) if r[0] != "ok"][0]} (B={B} T={T} H={H})', case)
+    rd, rw, rd2, rdj = call(decode, x), call(whole, x), call(decode, x2), call(decode, x, case['pseed'] + 17)
+    if any(r[0] != 'ok' for r in (rd, rw, rd2, rdj)):
+      ctx.violation('decode-raises', f'{api} attention decode/whole raised {[r[1] for r in (rd, rw, rd2, rdj) if r[0] != "ok"][0]} (B={B} T={T} H={H})', case)
       continue
-    yd, yw, yd2 = rd[1], rw[1], rd2[1]
+    yd, yw, yd2, ydj = rd[1], rw[1], rd2[1], rdj[1]
+    mdesc = 'no user mask' if user is None else 'a per-step user mask [B,1,1,max_length]'
+    # stepwise decoding = whole-sequence attention under (causal AND user mask), row by row
     err = float(np.abs(yd - yw).max()) if yd.shape == yw.shape else float('inf')
     if not err <= tol:
-      t_bad = int(np.argmax(np.abs(yd - yw).max(axis=(0, 2)))) if yd.shape == yw.shape else -1
-      ctx.violation('decode-not-causal-float', f'{api}: feeding the sequence one position at a time with the decode cache differs from the whole-sequence run with a causal mask by {err:.3g} (float tolerance {tol:.3g}), first at position {t_bad}', case)
+      t_bad = int(np.argmax(np.abs(yd - yw).max(axis=(0, 2)) > tol)) if yd.shape == yw.shape else -1
+      ctx.violation('decode-not-causal-float', f'{api}: decode step {t_bad} with {mdesc} differs from row {t_bad} of the whole-sequence run under (causal AND user mask) by {err:.3g} (float tolerance {tol:.3g})', case)
+    # not-yet-written cache slots are inert: junk in cached_key / cached_value before decoding changes nothing
+    if not np.array_equal(yd, ydj):
+      t_bad = int(np.argmax((yd != ydj).any(axis=(0, 2))))
+      ctx.violation('decode-unwritten-cache-not-inert', f'{api}: with {mdesc}, the output of decode step {t_bad} changes by {float(np.abs(yd - ydj).max()):.3g} when the not-yet-written cache slots hold junk instead of zeros (cache_index = 0 in both runs)', case)
       continue
     if not np.array_equal(yd[:, :p], yd2[:, :p]):
       ctx.violation('decode-future-not-inert', f'{api}: decode outputs before position {p} changed when only inputs at positions >= {p} were changed', case)
